@@ -162,10 +162,13 @@ func Convert(graph gdbi.GraphInterface, dataType gdbi.DataType, markTypes map[st
 		for k, v := range t.GetSelections() {
 			switch markTypes[k] {
 			case gdbi.VertexData:
+				// a mark set on a traveler without an element (outNull/inNull)
+				// selects an empty vertex, like the row of such a traveler
 				var ve *gripql.Vertex
-				if !v.Loaded {
-					ve = graph.GetVertex(v.ID, true).ToVertex()
-				} else {
+				if v != nil && !v.Loaded {
+					v = graph.GetVertex(v.ID, true)
+				}
+				if v != nil {
 					ve = v.ToVertex()
 				}
 				selections[k] = &gripql.Selection{
@@ -175,9 +178,10 @@ func Convert(graph gdbi.GraphInterface, dataType gdbi.DataType, markTypes map[st
 				}
 			case gdbi.EdgeData:
 				var ee *gripql.Edge
-				if !v.Loaded {
-					ee = graph.GetEdge(ee.Gid, true).ToEdge()
-				} else {
+				if v != nil && !v.Loaded {
+					v = graph.GetEdge(v.ID, true)
+				}
+				if v != nil {
 					ee = v.ToEdge()
 				}
 				selections[k] = &gripql.Selection{
